@@ -759,6 +759,49 @@ func runFacts(repo, outdir string) error {
 		return err
 	}
 
+	// ---------- Conc ----------
+	{
+		lcc := newLean("Conc.lean", "wal.go")
+		all := true
+		for _, name := range []string{"FirstIndex", "LastIndex", "GetLog"} {
+			fd, err := walP.fn("WAL", name)
+			if err != nil {
+				return err
+			}
+			src := walP.src(fd.Body)
+			ia := strings.Index(src, "acquireState()")
+			ic := strings.Index(src, "s.tail == nil")
+			ie := strings.Index(src, "ErrClosed")
+			if ia < 0 || ic < ia || ie < ic {
+				all = false
+			}
+		}
+		lcc.raw(fmt.Sprintf("/-- FirstIndex, LastIndex and GetLog test the state they acquired for the empty state Close stores (`s.tail == nil`) and return ErrClosed -/\ndef readersCheckEmptyState : Bool := %v\n\n", all))
+		cl, err := walP.fn("WAL", "Close")
+		if err != nil {
+			return err
+		}
+		cs := walP.src(cl.Body)
+		wakes := strings.Contains(cs, "close(w.awaitRotate)")
+		lcc.raw(fmt.Sprintf("/-- Close wakes a writer waiting for a pending rotation (`close(w.awaitRotate)`) -/\ndef closeWakesRotationWaiter : Bool := %v\n\n", wakes))
+		recheck := true
+		for _, name := range []string{"StoreLogs", "DeleteRange"} {
+			fd, err := walP.fn("WAL", name)
+			if err != nil {
+				return err
+			}
+			src := walP.src(fd.Body)
+			il := strings.Index(src, "w.writeMu.Lock()")
+			if il < 0 || !strings.Contains(src[il:], "w.checkClosed()") {
+				recheck = false
+			}
+		}
+		lcc.raw(fmt.Sprintf("/-- StoreLogs and DeleteRange re-check the closed flag after taking the write lock -/\ndef writersRecheckClosedUnderLock : Bool := %v\n\n", recheck))
+		if err := lcc.finish(outdir); err != nil {
+			return err
+		}
+	}
+
 	// ---------- Verifier ----------
 	lv := newLean("Verifier.lean", "verifier/verifier.go, verifier/store.go")
 	ck, err := verP.fn("", "checksumLog")
